@@ -75,6 +75,8 @@ var selection = []target{
 	{"bm", []string{"-prop", "C19"}, "quick,thorough", dlQ, dlT, false},
 	{"c15", nil, "quick,thorough", dlQ, dlT, false},
 	{"c10", nil, "quick,thorough", dlQ, dlT, false},
+	// scenario program (no model): public Rescan API, bounded/unbounded rescans with Update right after Start; ~2 s under -race
+	{"c18rescan", nil, "quick,thorough", dlQ, dlT, false},
 	// netsim based (wall-clock bound scenarios: stall detection, query timeouts)
 	{"c17", nil, "thorough", dlQ, dlNetsim, false},
 	{"c13net", nil, "thorough", dlQ, dlNetsim, false},
